@@ -606,3 +606,72 @@ func TestGovcReplay(t *testing.T) {
 		},
 	})
 }
+
+func init() {
+	harnesses = append(harnesses, &harness{
+		name: "bolt encoder length-field replay (oversized class / header block, re-decoded)",
+		match: func(o *Obligation) bool {
+			return o.Kind == "post" && (strings.Contains(o.Func, "bolt.encodeRequest") || strings.Contains(o.Func, "bolt.encodeResponse")) && !strings.Contains(o.Func, "boltv2")
+		},
+		run: func(eng *Engine, o *Obligation) *ReplayOutcome {
+			isReq := strings.Contains(o.Func, "encodeRequest")
+			src := fmt.Sprintf(`package bolt
+
+import (
+	"context"
+	"fmt"
+	"strings"
+	"testing"
+
+	"mosn.io/pkg/buffer"
+)
+
+// The refuted postcondition says: a frame whose class (or header block) is longer than its 16-bit
+// length field can express is neither refused nor encoded consistently. Replay: encode such a frame
+// with the real encoder and decode the result with the real decoder.
+func TestGovcReplay(t *testing.T) {
+	ctx := context.Background()
+	var bad []string
+	for _, n := range []int{65536, 65536 + 7} {
+		class := strings.Repeat("a", n)
+		var frameBuf interface{ Bytes() []byte }
+		var err error
+		if %v {
+			req := NewRpcRequest(1, nil, buffer.NewIoBufferString("body"))
+			req.Class = class
+			b, e := encodeRequest(ctx, req)
+			err = e
+			if b != nil { frameBuf = b }
+		} else {
+			resp := NewRpcResponse(1, 0, nil, buffer.NewIoBufferString("body"))
+			resp.Class = class
+			b, e := encodeResponse(ctx, resp)
+			err = e
+			if b != nil { frameBuf = b }
+		}
+		if err != nil { continue } // refused: fine
+		out := append([]byte{}, frameBuf.Bytes()...)
+		dec, derr := (&boltProtocol{}).Decode(ctx, buffer.NewIoBufferBytes(out))
+		got := ""
+		switch f := dec.(type) {
+		case *Request:
+			got = f.Class
+		case *Response:
+			got = f.Class
+		}
+		if derr != nil || got != class {
+			bad = append(bad, fmt.Sprintf("class of %%d bytes: encoded without error to %%d bytes, decodes to class of %%d bytes (err=%%v)", n, len(out), len(got), derr))
+		}
+	}
+	if len(bad) > 0 {
+		fmt.Println("REPLAY-CONFIRMED", bad)
+	} else {
+		fmt.Println("REPLAY-NOT-REPRODUCED")
+	}
+}
+`, isReq)
+			out, _ := runOverlayTest("pkg/protocol/xprotocol/bolt", src, "^TestGovcReplay$")
+			return outcomeFromOutput(src, out)
+		},
+	})
+}
